@@ -2619,7 +2619,9 @@ class SQLiteDialect(default.DefaultDialect):
         constraint_name = None
         table_data = self._get_table_sql(connection, table_name, schema=schema)
         if table_data:
-            PK_PATTERN = r'CONSTRAINT\s+(?:"(.+?)"|(\w+))\s+PRIMARY\s+KEY'
+            PK_PATTERN = (
+                r'CONSTRAINT\s+(?:"(.+?)"|([\w$]+))\s+PRIMARY\s+KEY'
+            )
             result = re.search(PK_PATTERN, table_data, re.I)
             if result:
                 constraint_name = self._constraint_name(*result.group(1, 2))
@@ -2724,7 +2726,7 @@ class SQLiteDialect(default.DefaultDialect):
             # so parsing the columns is really about matching it up to what
             # we already have.
             FK_PATTERN = (
-                r'(?:CONSTRAINT\s+(?:"(.+?)"|(\w+))\s+)?'
+                r'(?:CONSTRAINT\s+(?:"(.+?)"|([\w$]+))\s+)?'
                 r"FOREIGN\s+KEY\s*\(\s*(.+?)\s*\)\s+"
                 r'REFERENCES\s+(?:(?:"(.+?)")|([a-z0-9_]+))\s*\(\s*((?:(?:"[^"]+"|[a-z0-9_]+)\s*(?:,\s*)?)+)\)\s*'  # noqa: E501
                 r"((?:ON\s+(?:DELETE|UPDATE)\s+"
@@ -2853,7 +2855,8 @@ class SQLiteDialect(default.DefaultDialect):
             if table_data is None:
                 return
             UNIQUE_PATTERN = (
-                r'(?:CONSTRAINT\s+(?:"(.+?)"|(\w+))\s+)?UNIQUE\s*\((.+?)\)'
+                r'(?:CONSTRAINT\s+(?:"(.+?)"|([\w$]+))\s+)?'
+                r"UNIQUE\s*\((.+?)\)"
             )
             INLINE_UNIQUE_PATTERN = (
                 r'(?:(".+?")|(?:[\[`])?([a-z0-9_]+)(?:[\]`])?)[\t ]'
